@@ -17,7 +17,7 @@ def queries(tier):
         qs.append(Q("q_" + op.lower(), "C13/qop.c", units=QU,
                     harness_defines={"OP": "OP_" + op, "MAXQ": maxq},
                     unwind_default=maxq + 6, fp_default=["find_cmp"],
-                    unwind={"mpt_memrev.0": 2, "mpt_memswap.0": 2}, flags=["--object-bits", "10"],
+                    unwind={"mpt_memrev.0": 2, "mpt_memswap.0": 2}, 
                     witness=["", "WRAPPED"], regions=REGIONS.get(op, []),
                     bounds="capacity 1..%d, every offset 0..max and fill 0..max, content symbolic; one %s with length/position 0..%d" % (maxq, op, maxq + 1),
                     outside="capacities above %d; mpt_memrev blocks above 1024 bytes (swap path)" % maxq))
